@@ -244,118 +244,45 @@ func indexOf(e ast.Expr, i string) (string, bool) {
 	return x.Name, true
 }
 
-// magnitude(vec): sum := 0.0; for i := range vec { sum += vec[i] * vec[i] }; return math.Sqrt(sum)
+// magnitude(vec) and diff(vec1, vec2) are compared in canonical form (extract/canon.go), so renamed locals, an
+// index loop versus a value loop, `+=` versus `= … +`, or `0.0` versus `0` make no difference.
+func cfCanonBody(f *ast.File, name string) ([]string, error) {
+	// a private copy: canonFunc rewrites in place and the caller's AST is still needed
+	fd := findFunc(f, "", name)
+	if fd == nil {
+		return nil, fmt.Errorf("%s not found", name)
+	}
+	fset := token.NewFileSet()
+	cp, err := parser.ParseFile(fset, name+".go", "package p\n"+exprString(fd), 0)
+	if err != nil {
+		return nil, fmt.Errorf("%s: %v", name, err)
+	}
+	sts, _, err := canonFunc(findFunc(cp, "", name), nil, canonOpts{})
+	return sts, err
+}
+
 func cfCheckMagnitude(f *ast.File) error {
-	fd := findFunc(f, "", "magnitude")
-	bad := fmt.Errorf("magnitude: body is not `sum := 0.0; for i := range vec { sum += vec[i]*vec[i] }; return math.Sqrt(sum)`")
-	if fd == nil || len(fd.Type.Params.List) != 1 || len(fd.Type.Params.List[0].Names) != 1 || len(fd.Body.List) != 3 {
-		return bad
+	sts, err := cfCanonBody(f, "magnitude")
+	if err != nil {
+		return err
 	}
-	vec := fd.Type.Params.List[0].Names[0].Name
-	as, ok := fd.Body.List[0].(*ast.AssignStmt)
-	if !ok || as.Tok != token.DEFINE || len(as.Lhs) != 1 || len(as.Rhs) != 1 || !isFloatZero(as.Rhs[0]) {
-		return bad
-	}
-	sum := as.Lhs[0].(*ast.Ident).Name
-	rs, ok := fd.Body.List[1].(*ast.RangeStmt)
-	if !ok || rs.Value != nil || len(rs.Body.List) != 1 {
-		return bad
-	}
-	i, ok1 := rs.Key.(*ast.Ident)
-	rx, ok2 := rs.X.(*ast.Ident)
-	if !ok1 || !ok2 || rx.Name != vec {
-		return bad
-	}
-	acc, ok := rs.Body.List[0].(*ast.AssignStmt)
-	if !ok || acc.Tok != token.ADD_ASSIGN || len(acc.Lhs) != 1 || len(acc.Rhs) != 1 {
-		return bad
-	}
-	if l, ok := acc.Lhs[0].(*ast.Ident); !ok || l.Name != sum {
-		return bad
-	}
-	m, ok := acc.Rhs[0].(*ast.BinaryExpr)
-	if !ok || m.Op != token.MUL {
-		return bad
-	}
-	x1, ok1 := indexOf(m.X, i.Name)
-	x2, ok2 := indexOf(m.Y, i.Name)
-	if !ok1 || !ok2 || x1 != vec || x2 != vec {
-		return bad
-	}
-	ret, ok := fd.Body.List[2].(*ast.ReturnStmt)
-	if !ok || len(ret.Results) != 1 {
-		return bad
-	}
-	call, ok := ret.Results[0].(*ast.CallExpr)
-	if !ok || len(call.Args) != 1 {
-		return bad
-	}
-	sel, ok := call.Fun.(*ast.SelectorExpr)
-	if !ok || sel.Sel.Name != "Sqrt" || fmt.Sprint(sel.X) != "math" {
-		return bad
-	}
-	if a, ok := call.Args[0].(*ast.Ident); !ok || a.Name != sum {
-		return bad
+	want := []string{"v1 := 0", "for _, v2 := range v0 { v1 = v1 + (v2 * v2) }", "return math.Sqrt(v1)"}
+	if strings.Join(sts, " ; ") != strings.Join(want, " ; ") {
+		return fmt.Errorf("magnitude: canonical body is %q, expected %q", sts, want)
 	}
 	return nil
 }
 
-// diff(vec1, vec2): ret := make([]float64, len(vec1)); for i := range ret { ret[i] = vec1[i] - vec2[i] }; return ret
 func cfCheckDiff(f *ast.File) error {
-	fd := findFunc(f, "", "diff")
-	bad := fmt.Errorf("diff: body is not `ret := make([]float64, len(vec1)); for i := range ret { ret[i] = vec1[i] - vec2[i] }; return ret`")
-	if fd == nil || len(fd.Body.List) != 3 {
-		return bad
+	sts, err := cfCanonBody(f, "diff")
+	if err != nil {
+		return err
 	}
-	var params []string
-	for _, p := range fd.Type.Params.List {
-		for _, n := range p.Names {
-			params = append(params, n.Name)
-		}
-	}
-	if len(params) != 2 {
-		return bad
-	}
-	as, ok := fd.Body.List[0].(*ast.AssignStmt)
-	if !ok || as.Tok != token.DEFINE || len(as.Lhs) != 1 || len(as.Rhs) != 1 {
-		return bad
-	}
-	ret := as.Lhs[0].(*ast.Ident).Name
-	mk, ok := as.Rhs[0].(*ast.CallExpr)
-	if !ok || fmt.Sprint(mk.Fun) != "make" || len(mk.Args) != 2 {
-		return bad
-	}
-	ln, ok := mk.Args[1].(*ast.CallExpr)
-	if !ok || fmt.Sprint(ln.Fun) != "len" || len(ln.Args) != 1 || fmt.Sprint(ln.Args[0]) != params[0] {
-		return bad
-	}
-	rs, ok := fd.Body.List[1].(*ast.RangeStmt)
-	if !ok || rs.Value != nil || len(rs.Body.List) != 1 || fmt.Sprint(rs.X) != ret {
-		return bad
-	}
-	i, ok := rs.Key.(*ast.Ident)
-	if !ok {
-		return bad
-	}
-	st, ok := rs.Body.List[0].(*ast.AssignStmt)
-	if !ok || st.Tok != token.ASSIGN || len(st.Lhs) != 1 || len(st.Rhs) != 1 {
-		return bad
-	}
-	if l, ok := indexOf(st.Lhs[0], i.Name); !ok || l != ret {
-		return bad
-	}
-	sub, ok := st.Rhs[0].(*ast.BinaryExpr)
-	if !ok || sub.Op != token.SUB {
-		return bad
-	}
-	x1, ok1 := indexOf(sub.X, i.Name)
-	x2, ok2 := indexOf(sub.Y, i.Name)
-	if !ok1 || !ok2 || x1 != params[0] || x2 != params[1] {
-		return bad
-	}
-	r, ok := fd.Body.List[2].(*ast.ReturnStmt)
-	if !ok || len(r.Results) != 1 || fmt.Sprint(r.Results[0]) != ret {
-		return bad
+	want := []string{"v2 := make([]float64, len(v0))", "for v3 := range v2 { v2[v3] = v0[v3] - v1[v3] }", "return v2"}
+	alt := []string{"v2 := make([]float64, len(v0))", "for v3 := range v0 { v2[v3] = v0[v3] - v1[v3] }", "return v2"}
+	got := strings.Join(sts, " ; ")
+	if got != strings.Join(want, " ; ") && got != strings.Join(alt, " ; ") {
+		return fmt.Errorf("diff: canonical body is %q, expected %q", sts, want)
 	}
 	return nil
 }
